@@ -14,6 +14,7 @@ import math
 import os
 
 from mc import domains as D
+from mc.props import envcheck
 from mc.engine import InputPart, Viol
 from mc.props.common import IT, PT, Textgrid, call, wellformed, scratch_dir, fresh
 from praatio import textgrid as _tgmod
@@ -372,6 +373,11 @@ def parts(tier):
                   rule="%d (time, duration) pairs with the time at 8e6 .. 1.1e12 s and a duration of 1e-7 .. 8e-3 s (above the 1e-8 threshold but below "
                        "1e-14 or 1e-9 of the time value), as a labelled / unlabelled stretch between two ordinary intervals and as the only entry, "
                        "saved with the default minimumIntervalLength in all 16 configurations" % len(FAR), bounds={}, snippet=_snippet, chunk=1),
+        InputPart("default-encoding-environment", lambda: envcheck.env_cases(quick), envcheck.check_env,
+                  rule="the library run in a child process whose locale-dependent default text encoding is ASCII (LC_ALL=C, PYTHONUTF8=0, "
+                       "PYTHONCOERCECLOCALE=0) and in one where it is UTF-8: save x 4 formats x blank filling x non-ASCII text as interval label / point mark / "
+                       "tier name: the save succeeds, the bytes are UTF-8 and decode (independent decoder) to the in-memory content, the library reads them back",
+                  bounds={"environments": 2}, chunk=1),
         InputPart("size", lambda: layer_size(not quick), check,
                   rule="the size axis: 9-25 (thorough 100) tiers; tiers of 10-400 (thorough 1000) entries, with and without gaps; labels and names with 8-30 quote "
                        "characters, 255-9000 characters, 10-40 lines, 400-10000 non-ASCII characters (texts longer than 8192 and 65536 characters) - each in "
